@@ -163,9 +163,18 @@ class Module:
         # alpha-renaming invariance: locals renamed relative to the reviewed reference get their reference names back
         from . import alpha, normalize
         self.normalized = normalize.normalize(self.tree, name, alpha.load_reference())
+        fq_cache = {}
+
+        def fq(tree_):
+            # the function list changes only when a helper was inlined away: computed once per stage of the tree
+            k = (id(tree_), sum(len(getattr(x, "body", [])) for x in tree_.body))
+            if k not in fq_cache:
+                fq_cache[k] = alpha.functions_with_qualnames(tree_)
+            return fq_cache[k]
+        self.normalized["comprehensions"] = normalize.comprehensions_to_loops(self.tree, name, alpha.load_reference(), fq)
         self.restored_locals = []
-        alpha.restore_local_names(self.tree, name, self.restored_locals)
-        self.normalized["explaining_locals"] = normalize.inline_new_locals(self.tree, name, alpha.load_reference(), alpha.functions_with_qualnames)
+        alpha.restore_local_names(self.tree, name, self.restored_locals, fq)
+        self.normalized["explaining_locals"] = normalize.inline_new_locals(self.tree, name, alpha.load_reference(), fq)
         set_parents(self.tree)
         self.classes = {}
         self.functions = {}
